@@ -170,7 +170,8 @@ TRestart == /\ Ev.e = "Restart"
             /\ st' = [st EXCEPT !.queue = <<>>, !.qU = <<>>,
                                 !.lostPids = @ \cup {p \in st.created : ~(st.claim.exists /\ st.claim.providerID = p)}]
             /\ UNCHANGED viol
-TOther == Ev.e \in {"Tick", "Skip", "Read"} /\ UNCHANGED <<st, viol>>
+\* Settled: outcome of the bounded-progress tail (evidence only: the statements of C09 / C10 are safety statements)
+TOther == Ev.e \in {"Tick", "Skip", "Read", "Settled"} /\ UNCHANGED <<st, viol>>
 
 TraceNext ==
     \/ /\ l <= Len(Trace) /\ l' = l + 1 /\ UNCHANGED done
